@@ -14,7 +14,7 @@ import (
 
 var weights = map[string]int{
 	"next": 5, "extend": 2, "lookup": 3, "derivePath": 4, "deriveBurst": 4, "markUsed": 1, "lock": 6, "unlock": 8, "changePass": 3, "changePassFault": 2,
-	"newAccount": 2, "newWOAcct": 1, "importKey": 2, "importScript": 2, "importPubKey": 1, "newScope": 1, "restart": 2,
+	"newAccount": 2, "newWOAcct": 1, "invalidate": 1, "importKey": 2, "importScript": 2, "importPubKey": 1, "newScope": 1, "restart": 2,
 }
 
 func TestC05LockState(t *testing.T) {
